@@ -15,7 +15,22 @@ Monitors
            virtual seconds, "connection pending" before success, "unacceptable parameters" with a
            proposal first, a response or a request in two parts (continuation flag) - with bumble
            as initiator and as acceptor, Basic and ERTM: both ends open (then SDUs both ways and a
-           close by either side) or both closed, never a pending connect()
+           close by either side) or both closed, never a pending connect(). Before its final Configuration Request the
+           peer may send one or two that bumble HAS to refuse (unknown option: QoS / extended flow specification /
+           extended window; an FCS bumble cannot do) and that advertise OTHER values (MTU, TxWindow, MaxTransmit, MPS):
+           the data phase - SDUs of several segments, more frames than the window, acknowledgements held back for
+           0.1-1.5 virtual seconds - is judged against the values of the request that was ACCEPTED, by the raw peer's
+           own count and by the wire oracle; then an idle stretch (2.5-15 virtual s) and more SDUs
+  ertmtime two bumble ends in ERTM over TIME: 3-6 cycles of (burst: one frame / several SDUs back to back / a segmented
+           SDU / more frames than the window, from one or both ends; every SDU at the other sink) and an idle stretch
+           placed around the retransmission and monitor time-outs of the sender (0.4x, just below, just above, 1.5x
+           the retransmission time-out; retransmission + half / all of the monitor time-out; 2.5x and 5x their sum),
+           default (2 s / 12 s) and shorter time-outs: all SDUs of all later cycles arrive once, in order
+  retry    set-ups issued back to back on one link WITHOUT waiting for quiescence: a set-up refused for a mode
+           mismatch (client Basic -> server ERTM and the reverse) followed at once by a retry, towards the same or a
+           matching server; close by one end / by both ends at once followed at once by the next set-up; every
+           matching set-up ends open/open (an SDU each way), every mismatching one closed/closed, none pending;
+           tables and acceptor-end states exact at the end
 """
 from __future__ import annotations
 
@@ -33,9 +48,16 @@ RULE = ('seeded cases over (client spec, server spec, SDU size sequences both wa
         'non-trivial when the modes/FCS of the two specs differ, or an SDU was segmented, or TxSeq wrapped past '
         '63, or the window filled; distinct = distinct spec pair + SDU size sequence. rawcfg cases: seeded (role, '
         'ordering script, pace, mode, CIDs/MTUs, pending/renegotiation/continuation feature); each is non-trivial (the '
-        'peer never behaves like bumble); distinct = distinct parameter tuple')
+        'peer never behaves like bumble); distinct = distinct parameter tuple (incl. the refused requests, the '
+        'acknowledgement policy and the idle stretch). ertmtime cases: seeded (two ERTM specs with time-outs, 3-6 cycles of '
+        'burst shape x direction x idle stretch relative to the time-outs); non-trivial always (each has an idle stretch '
+        'followed by traffic); distinct = distinct history. retry cases: seeded (specs, chain of 3-7 set-ups towards a '
+        'mismatching / matching server, gaps none / loop turns / quiescence, closes by one or both ends); distinct = history')
 ASSUMPTIONS = [
     'no frame loss on the virtual link, so retransmission paths are not exercised',
+    'a Configuration Request that was answered with a failure result leaves nothing behind: the values that bind the '
+    'sender are those of the last request that was answered with success',
+    'the raw peer acknowledges every I-frame within 1.5 virtual seconds, i.e. inside the retransmission time-out',
     'SDU sizes are kept <= min(client MTU, server MTU): larger SDUs are an API misuse the statement does not cover',
     'TxWindow in a Configuration Request is the number of I-frames its sender can receive unacknowledged',
     'with an FCS negotiated, SDUs are kept small enough for payload + FCS to fit the 16-bit L2CAP length field',
@@ -45,12 +67,24 @@ MIN_EVENTS = {
               'multi_sdu_checks': 1500, 'multi_channels_with_different_cids': 100, 'multi_closes': 80,
               'rawcfg_setups': 400, 'rawcfg_both_open': 300, 'rawcfg_order_rsp-first': 60, 'rawcfg_order_req-first-late-rsp': 60,
               'rawcfg_bumble_acceptor': 150, 'rawcfg_bumble_initiator': 150, 'rawcfg_conn_pending': 40,
-              'rawcfg_rsp_continuations': 15, 'rawcfg_sdu_checks': 500},
+              'rawcfg_rsp_continuations': 15, 'rawcfg_sdu_checks': 500,
+              'rawcfg_refused_requests': 150, 'rawcfg_accepted_window_or_mps_smaller_than_refused': 25,
+              'rawcfg_window_filled_after_refused_request': 12, 'rawcfg_idle_rounds': 150, 'rawcfg_segmented_sdus_to_raw_peer': 100,
+              'time_sdu_checks': 900, 'time_cycles_after_idle': 280, 'time_cycles_after_idle-beyond-retransmission-timeout': 70,
+              'time_cycles_after_idle-beyond-monitor-timeout': 110, 'time_multi_frame_bursts_after_idle': 230,
+              'retry_setups_without_quiescence': 300, 'retry_refused-setup_then_open_without_quiescence': 130,
+              'retry_crossing-closes_then_open_without_quiescence': 45, 'retry_sdu_checks': 450},
     'thorough': {'sdu_checks': 4000, 'wire_iframes': 100000, 'setup_checks': 3000, 'fcs_checked': 10000, 'seq_wraps': 100,
                  'multi_sdu_checks': 15000, 'multi_channels_with_different_cids': 1000, 'multi_closes': 800,
                  'rawcfg_setups': 3500, 'rawcfg_both_open': 2500, 'rawcfg_order_rsp-first': 500,
                  'rawcfg_order_req-first-late-rsp': 500, 'rawcfg_bumble_acceptor': 1200, 'rawcfg_bumble_initiator': 1200,
-                 'rawcfg_conn_pending': 300, 'rawcfg_rsp_continuations': 120, 'rawcfg_sdu_checks': 4000},
+                 'rawcfg_conn_pending': 300, 'rawcfg_rsp_continuations': 120, 'rawcfg_sdu_checks': 4000,
+                 'rawcfg_refused_requests': 1100, 'rawcfg_accepted_window_or_mps_smaller_than_refused': 180,
+                 'rawcfg_window_filled_after_refused_request': 90, 'rawcfg_idle_rounds': 1100, 'rawcfg_segmented_sdus_to_raw_peer': 700,
+                 'time_sdu_checks': 8000, 'time_cycles_after_idle': 2500, 'time_cycles_after_idle-beyond-retransmission-timeout': 600,
+                 'time_cycles_after_idle-beyond-monitor-timeout': 1000, 'time_multi_frame_bursts_after_idle': 2000,
+                 'retry_setups_without_quiescence': 2700, 'retry_refused-setup_then_open_without_quiescence': 1200,
+                 'retry_crossing-closes_then_open_without_quiescence': 400, 'retry_sdu_checks': 4000},
 }
 CASE_TIMEOUT = 300
 
@@ -62,7 +96,9 @@ def plan(tier, seed):
     m = 150 if tier == 'quick' else 1500
     return ([{'kind': 'xfer', 'seed': seed * 1000003 + i, 'tier': tier} for i in range(n)] +
             [{'kind': 'multi', 'seed': seed * 1000003 + 50000 + i, 'tier': tier} for i in range(m)] +
-            [{'kind': 'rawcfg', 'seed': seed * 1000003 + 80000 + i, 'tier': tier} for i in range(480 if tier == 'quick' else 4000)])
+            [{'kind': 'rawcfg', 'seed': seed * 1000003 + 80000 + i, 'tier': tier} for i in range(480 if tier == 'quick' else 4000)] +
+            [{'kind': 'ertmtime', 'seed': seed * 1000003 + 120000 + i, 'tier': tier} for i in range(160 if tier == 'quick' else 1600)] +
+            [{'kind': 'retry', 'seed': seed * 1000003 + 140000 + i, 'tier': tier} for i in range(160 if tier == 'quick' else 1600)])
 
 
 def crc16(data: bytes) -> int:
@@ -554,6 +590,21 @@ class RawClassic:
         self.tx_next = 0                # ERTM: my next TxSeq
         self.acked_by_bumble = 0
         self.wire_errors = []
+        # requests that bumble has to refuse (unknown option / an FCS it cannot do), sent BEFORE the final one and
+        # advertising OTHER values: only the values of the request that was accepted count afterwards
+        self.refusals = list(p.get('refusals') or [])
+        self.final = dict(mtu=p['raw_mtu'], window=p['raw_window'], mps=p['raw_mps'], maxtx=3)
+        self.last_req = None            # the values of the request that is outstanding
+        self.req_refusable = None
+        self.accepted = None            # the values of the request bumble accepted
+        self.refused = []               # (why, result, values)
+        self.ertm_errors = []           # (clause, text): what the raw peer sees as an ERTM receiver
+        self.unacked = 0                # I-frames received since my last acknowledgement
+        self.max_unacked = 0
+        self.ack_timer = None
+        self.re_buf = None
+        self.re_total = 0
+        self.segmented_sdus = 0
         raw.handlers.append(self.on_pdu)
 
     # -- plumbing
@@ -593,10 +644,11 @@ class RawClassic:
         return self.conn_done and self.req_acked and self.peer_req_answered and not self.closed
 
     # -- my side of the exchange
-    def my_options(self):
-        o = bytes([0x01, 2]) + struct.pack('<H', self.p['raw_mtu'])
+    def my_options(self, v=None):
+        v = v or self.final
+        o = bytes([0x01, 2]) + struct.pack('<H', v['mtu'])
         if self.p['mode'] == 'ertm':
-            o += bytes([0x04, 9]) + struct.pack('<BBBHHH', 3, self.p['raw_window'], 3, 2000, 12000, self.p['raw_mps'])
+            o += bytes([0x04, 9]) + struct.pack('<BBBHHH', 3, v['window'], v['maxtx'], 2000, 12000, v['mps'])
         elif self.p['basic_rfc_option']:
             o += bytes([0x04, 9]) + struct.pack('<BBBHHH', 0, 0, 0, 0, 0, 0)
         return o
@@ -606,6 +658,22 @@ class RawClassic:
             return
         self.req_sent = True
         self.req_ident = self.nid()
+        self.req_refusable = None
+        self.last_req = self.final
+        if self.refusals:
+            q = self.refusals.pop(0)
+            self.req_refusable = q
+            self.last_req = q
+            self.req_part = 0
+            extra = {'qos': bytes([0x03, 22]) + bytes(22),                   # Quality of Service: not implemented by bumble
+                     'ext-flow': bytes([0x06, 16]) + bytes(16),              # Extended Flow Specification
+                     'ext-window': bytes([0x07, 2]) + struct.pack('<H', 100),    # Extended Window Size
+                     'fcs': bytes([0x05, 1, 1])}[q['why']]                  # an FCS although bumble did not announce the feature
+            o = self.my_options(q)
+            o = extra + o if q['where'] == 'first' else o[:4] + extra + o[4:] if q['where'] == 'middle' else o + extra
+            self.sig(rl.CODE_CONF_REQ, self.req_ident, struct.pack('<HH', self.peer_cid, 0) + o,
+                     f'ConfReq({q["why"]},{q["where"]},mtu={q["mtu"]},w={q["window"]},mps={q["mps"]})')
+            return
         if self.p['req_split'] and not self.split_refused:
             self.req_part = 1
             hint = bytes([0x80 | 0x7E, 40]) + bytes(range(40))
@@ -704,7 +772,20 @@ class RawClassic:
             elif code == rl.CODE_CONF_RSP:
                 scid, flags, result = struct.unpack_from('<HHH', data, 0)
                 self.trace.append(f'bumble>ConfRsp({result})')
-                if self.req_sent and ident == self.req_ident and result == 0 and self.req_part == 1:
+                if self.req_sent and ident == self.req_ident and self.req_refusable is not None:
+                    q, self.req_refusable = self.req_refusable, None
+                    if result == 0:
+                        # bumble took it (it may skip what it likes): these are the values that count now
+                        self.accepted = q
+                        self.refusals = []
+                        self.req_acked = True
+                        if self.peer_req is not None:
+                            self.act(self.answer)
+                    else:
+                        self.refused.append((q['why'], result, q))
+                        self.req_sent = False
+                        self.act(self.send_req)
+                elif self.req_sent and ident == self.req_ident and result == 0 and self.req_part == 1:
                     # first part accepted: the rest, continuation flag cleared
                     self.req_part = 2
                     self.req_ident = self.nid()
@@ -717,6 +798,7 @@ class RawClassic:
                     self.act(self.send_req)
                 elif self.req_sent and ident == self.req_ident and result == 0:
                     self.req_acked = True
+                    self.accepted = self.last_req
                     if self.peer_req is not None:
                         self.act(self.answer)
                 elif result != 0:
@@ -750,15 +832,60 @@ class RawClassic:
         if ctrl & 1:
             if ctrl & 0x10:      # poll: answer with the final bit
                 self.raw.send(self.handle, self.peer_cid, struct.pack('<H', 0x0001 | 0x80 | (self.rx_next << 8)))
+                self.unacked = 0
             return
         txseq, sar = (ctrl >> 1) & 0x3F, (ctrl >> 14) & 3
         if txseq != self.rx_next:
             self.wire_errors.append(f'I-frame TxSeq {txseq}, expected {self.rx_next}')
             return
         self.rx_next = (self.rx_next + 1) % 64
-        if sar != 0:
-            self.wire_errors.append(f'segmented I-frame (SAR {sar}) for an SDU below my MPS')
-        self.rx_sdus.append(bytes(payload[2:]))
+        acc = self.accepted or self.final
+        info = bytes(payload[2:])
+        if sar == 1:
+            if self.re_buf is not None or len(info) < 2:
+                self.wire_errors.append('START inside an open SDU or without SDU length')
+            self.re_total = struct.unpack_from('<H', info, 0)[0] if len(info) >= 2 else 0
+            info = info[2:]
+            self.re_buf = info
+        elif sar in (2, 3):
+            if self.re_buf is None:
+                self.wire_errors.append('CONTINUATION/END without START')
+                self.re_buf = b''
+            self.re_buf += info
+            if sar == 2:
+                if len(self.re_buf) != self.re_total:
+                    self.wire_errors.append(f'reassembled {len(self.re_buf)} bytes, SDU length field said {self.re_total}')
+                if self.re_total <= acc['mps']:
+                    self.wire_errors.append(f'segmented an SDU of {self.re_total} bytes although my MPS is {acc["mps"]}')
+                self.rx_sdus.append(self.re_buf)
+                self.segmented_sdus += 1
+                self.re_buf = None
+        else:
+            if self.re_buf is not None:
+                self.wire_errors.append('UNSEGMENTED inside an open SDU')
+                self.re_buf = None
+            self.rx_sdus.append(info)
+        if len(info) > acc['mps']:
+            self.ertm_errors.append(('mps-exceeded', f'I-frame carries {len(info)} bytes, the request bumble accepted said MPS {acc["mps"]}'
+                                                     f' (refused before: {[(w, q["mps"]) for w, _r, q in self.refused]})'))
+        self.unacked += 1
+        self.max_unacked = max(self.max_unacked, self.unacked)
+        if self.unacked > acc['window']:
+            self.ertm_errors.append(('window-exceeded', f'{self.unacked} I-frames without an acknowledgement from me, the request bumble '
+                                                        f'accepted said TxWindow {acc["window"]} (refused before: '
+                                                        f'{[(w, q["window"]) for w, _r, q in self.refused]})'))
+        if self.p.get('ack', 'immediate') == 'immediate':
+            self.send_ack()
+        elif self.ack_timer is None:
+            # acknowledge late (well inside the retransmission time-out): everything bumble dares to send
+            # meanwhile is unacknowledged
+            self.ack_timer = self.loop.call_later(self.p['ack_delay'], self.send_ack)
+
+    def send_ack(self):
+        self.ack_timer = None
+        if self.closed:
+            return
+        self.unacked = 0
         self.raw.send(self.handle, self.peer_cid, struct.pack('<H', 0x0001 | (self.rx_next << 8)))    # RR
 
     def send_sdu(self, sdu):
@@ -767,6 +894,7 @@ class RawClassic:
         else:
             ctrl = (self.tx_next << 1) | (self.rx_next << 8)
             self.tx_next = (self.tx_next + 1) % 64
+            self.unacked = 0        # ReqSeq of an I-frame acknowledges as well
             self.raw.send(self.handle, self.peer_cid, struct.pack('<H', ctrl) + sdu)
 
 
@@ -797,6 +925,17 @@ def gen_rawcfg(rng):
     if p['role'] == 'initiator' and rng.random() < 0.4:
         # the raw acceptor first answers "connection pending" (authorisation, authentication ...), legal at any pace
         p['conn_pending'] = dict(status=rng.choice([0, 1, 2]), dcid=rng.random() < 0.5, pace=rng.choice(['turns', 'vtime', 'vtime']))
+    # requests that have to be refused before the final one, advertising OTHER (mostly larger) values
+    p['refusals'] = []
+    if not p['req_split'] and rng.random() < 0.45:
+        for _ in range(rng.choice([1, 1, 2])):
+            p['refusals'].append(dict(
+                why=rng.choice(['qos', 'qos', 'ext-flow', 'ext-window', 'fcs', 'fcs']), where=rng.choice(['last', 'last', 'middle', 'first']),
+                mtu=rng.choice([48, 672, 1024, 65535]), window=rng.choice([1, 8, 32, 63]), mps=rng.choice([23, 100, 400, 1010]),
+                maxtx=rng.choice([0, 1, 3])))
+    p['ack'] = rng.choice(['immediate', 'lazy', 'lazy'])
+    p['ack_delay'] = rng.choice([0.1, 0.5, 1.5])
+    p['idle_round'] = rng.choice([0, 0, 2.5, 3.0, 15.0])
     return p
 
 
@@ -809,6 +948,8 @@ async def rawcfg(case, r: R):
     rg = vrig.Rig(2, seed=case['seed'], max_delay=p['delay'], classic=True)
     rg.devices[0].l2cap_channel_manager.extended_features.update(
         {l2cap.L2CAP_Information_Request.ExtendedFeatures.ENHANCED_RETRANSMISSION_MODE})
+    # (the raw peer does not do frame check sequences: a request for one has to be refused)
+    rg.devices[0].l2cap_channel_manager.extended_features.discard(l2cap.L2CAP_Information_Request.ExtendedFeatures.FCS_OPTION)
     await rg.power_on()
     ca, cb = await rg.connect_classic(0, 1)
     await rg.quiesce()
@@ -818,6 +959,8 @@ async def rawcfg(case, r: R):
     bspec = dict(mode=p['mode'], mtu=p['bumble_mtu'], mps=p['bumble_mps'], tx_window_size=p['bumble_window'], fcs_enabled=False)
     variant = ('rsp-continuation' if p['rsp_continuation'] else 'req-split' if p['req_split'] else
                'renegotiate' if p['renegotiate'] else p['order'] + ('/conn-pending' if p['conn_pending'] else ''))
+    if p['refusals']:
+        variant += '/after-refused-request'
     tag = f'/raw-peer/bumble-{p["role"]}/{variant}'
     OPEN = l2cap.ClassicChannel.State.OPEN
     CLOSED = l2cap.ClassicChannel.State.CLOSED
@@ -892,45 +1035,105 @@ async def rawcfg(case, r: R):
     asked_mode = rfc[0] if rfc else 0
     if asked_mode != (3 if p['mode'] == 'ertm' else 0):
         r.bad(f'setup/mode-disagree{tag}', f'bumble asked for mode {asked_mode} with spec {p["mode"]}; params={p}')
-    if ch.peer_mtu != p['raw_mtu']:
-        r.bad(f'setup/config-request-wrong/peer-mtu{tag}', f'bumble recorded peer MTU {ch.peer_mtu}, the raw peer asked for {p["raw_mtu"]}')
+    acc = ep.accepted or ep.final
+    if p['refusals']:
+        r.ev('rawcfg_cases_with_refused_requests')
+        r.ev('rawcfg_refused_requests', len(ep.refused))
+        for why, result, _q in ep.refused:
+            r.ev(f'rawcfg_refused_{why}')
+        if ep.refused and any((q['window'], q['mps']) != (acc['window'], acc['mps']) for _w, _r, q in ep.refused) and p['mode'] == 'ertm':
+            r.ev('rawcfg_accepted_window_or_mps_differs_from_refused')
+        if ep.refused and any(q['window'] > acc['window'] or q['mps'] > acc['mps'] for _w, _r, q in ep.refused) and p['mode'] == 'ertm':
+            r.ev('rawcfg_accepted_window_or_mps_smaller_than_refused')
+        if ep.refused and any(q['mtu'] != acc['mtu'] for _w, _r, q in ep.refused):
+            r.ev('rawcfg_accepted_mtu_differs_from_refused')
+    if ch.peer_mtu != acc['mtu']:
+        r.bad(f'setup/config-request-wrong/peer-mtu{tag}', f'bumble recorded peer MTU {ch.peer_mtu}, the request it accepted said {acc["mtu"]} '
+                                                           f'(refused before: {[(w, q["mtu"]) for w, _r, q in ep.refused]})')
+    if p['mode'] == 'ertm':
+        r.ev('oracle_evals')
+        pr = ch.processor
+        if (getattr(pr, 'peer_tx_window_size', None), getattr(pr, 'peer_mps', None)) != (acc['window'], acc['mps']):
+            r.ev('rawcfg_processor_values_differ_from_accepted')     # (informative: the verdict comes from the wire)
 
     # ---- SDUs both ways
     got = []
     ch.sink = got.append
-    top = min(p['raw_mtu'], got_mtu, p['raw_mps'] if p['mode'] == 'ertm' else 65535, p['bumble_mps'] if p['mode'] == 'ertm' else 65535)
+    ertm = p['mode'] == 'ertm'
+    top = min(acc['mtu'], got_mtu, acc['mps'] if ertm else 65535, p['bumble_mps'] if ertm else 65535)
     sizes = [1, min(top, 40), min(top, rng.choice([48, 400, 1000])), top if top <= 2000 else 700]
-    sent_b = [bytes([(7 * i + k) & 0xFF for i in range(n)]) for k, n in enumerate(sizes)]
-    sent_r = [bytes([(11 * i + k + 3) & 0xFF for i in range(n)]) for k, n in enumerate(sizes)]
-    for a, b in zip(sent_b, sent_r):
-        try:
-            ch.write(a)
-        except Exception as e:
-            r.bad(f'sdu/write-raised{tag}', f'write({len(a)}) raised {type(e).__name__}: {e}')
-            return
-        ep.send_sdu(b)
-        if rng.random() < 0.5:
-            await rg.quiesce(extra_turns=3)
+    sizes_b = list(sizes)
+    if ertm:
+        # towards the raw peer also SDUs of several segments, and more frames at once than its window
+        big = min(acc['mtu'], 2000)
+        sizes_b += [min(big, acc['mps'] * rng.randint(2, 5) + 3), min(big, acc['mps'] * (acc['window'] + 2))] + \
+                   [min(big, acc['mps'])] * min(acc['window'] + 2, 12)
+    sent_b, sent_r = [], []
 
-    async def done():
-        while len(got) < len(sent_r) or len(ep.rx_sdus) < len(sent_b):
-            await asyncio.sleep(0.05)
-    try:
-        await vloop.vwait(done(), 60)
-    except vloop.Hang:
-        pass
-    await rg.quiesce()
-    r.ev('sdu_checks', 2)
-    r.ev('rawcfg_sdu_checks', 2)
-    r.ev('oracle_evals', 2)
-    if [bytes(x) for x in got] != sent_r:
-        r.bad(f'sdu/raw-to-bumble/{"lost" if len(got) < len(sent_r) else "corrupt"}{tag}',
-              f'{len(got)} SDUs at the sink, {len(sent_r)} sent by the raw peer; sizes={sizes} params={p}')
-    if ep.rx_sdus != sent_b:
-        r.bad(f'sdu/bumble-to-raw/{"lost" if len(ep.rx_sdus) < len(sent_b) else "corrupt"}{tag}',
-              f'{len(ep.rx_sdus)} SDUs reached the raw peer, {len(sent_b)} written; sizes={sizes} params={p}')
+    async def round_(szb, szr, after):
+        for k in range(max(len(szb), len(szr))):
+            if k < len(szb):
+                a = bytes([(7 * i + len(sent_b)) & 0xFF for i in range(szb[k])])
+                try:
+                    ch.write(a)
+                except Exception as e:
+                    r.bad(f'sdu/write-raised{tag}{after}', f'write({len(a)}) raised {type(e).__name__}: {e}')
+                    return False
+                sent_b.append(a)
+            if k < len(szr):
+                b = bytes([(11 * i + len(sent_r) + 3) & 0xFF for i in range(szr[k])])
+                ep.send_sdu(b)
+                sent_r.append(b)
+            if rng.random() < 0.5:
+                await rg.quiesce(extra_turns=3)
+
+        async def done():
+            while len(got) < len(sent_r) or len(ep.rx_sdus) < len(sent_b):
+                await asyncio.sleep(0.05)
+        try:
+            await vloop.vwait(done(), 90)
+        except vloop.Hang:
+            pass
+        await rg.quiesce()
+        r.ev('sdu_checks', 2)
+        r.ev('rawcfg_sdu_checks', 2)
+        r.ev('oracle_evals', 2)
+        ok = True
+        if [bytes(x) for x in got] != sent_r:
+            r.bad(f'sdu/raw-to-bumble/{"lost" if len(got) < len(sent_r) else "corrupt"}{tag}{after}',
+                  f'{len(got)} SDUs at the sink, {len(sent_r)} sent by the raw peer; sizes={szr} params={p}')
+            ok = False
+        if ep.rx_sdus != sent_b:
+            r.bad(f'sdu/bumble-to-raw/{"lost" if len(ep.rx_sdus) < len(sent_b) else "corrupt"}{tag}{after}',
+                  f'{len(ep.rx_sdus)} SDUs reached the raw peer, {len(sent_b)} written; sizes={szb} accepted={acc} params={p}')
+            ok = False
+        return ok
+
+    ok = await round_(sizes_b, sizes, '')
+    if ok and p['idle_round']:
+        # nothing for longer than the retransmission (2 s) / monitor (12 s) time-out, then more SDUs
+        await asyncio.sleep(p['idle_round'])
+        await rg.quiesce()
+        r.ev('rawcfg_idle_rounds')
+        ok = await round_(sizes_b[-3:] if ertm else sizes[:2], sizes[:2], '/after-idle')
     for w in ep.wire_errors:
         r.bad(f'sdu/wire{tag}', f'{w}; params={p}')
+    # ---- the data phase against the values of the request bumble ACCEPTED: what the raw peer counted itself, and
+    #      the wire oracle over bumble's boundary log (it takes the values of the LAST request the peer sent)
+    r.ev('oracle_evals', 2)
+    for clause, text in ep.ertm_errors[:3]:
+        r.bad(f'ertm/{clause}/counted-by-raw-peer{tag}', f'{text}; accepted={acc} trace={ep.trace}')
+    ws = wire_check(rg.boundary_log, 0, r, p['mode'], False, tag)
+    if ertm:
+        r.ev('rawcfg_ertm_data_phases')
+        r.ev('rawcfg_iframes_to_raw_peer', ws['iframes'])
+        r.ev('rawcfg_segmented_sdus_to_raw_peer', ep.segmented_sdus)
+        if p['ack'] == 'lazy':
+            r.ev('rawcfg_lazy_ack_cases')
+        if ep.max_unacked >= acc['window']:
+            r.ev('rawcfg_window_filled_at_raw_peer')
+            if ep.refused:
+                r.ev('rawcfg_window_filled_after_refused_request')
     # ---- close: both ends closed, table empty
     if p['close_by'] == 'bumble':
         try:
@@ -949,10 +1152,371 @@ async def rawcfg(case, r: R):
         r.bad(f'sdu/exception-in-stack{tag}', f'{where}: {e}; params={p}')
     r.sig('rawcfg', p['role'], p['order'], p['mode'], bool(p['conn_pending']), p['renegotiate'], p['rsp_continuation'],
           p['req_split'], tuple(p['paces']), p['raw_cid'],
-          p['raw_mtu'], p['bumble_mtu'], p['delay'])
+          p['raw_mtu'], p['bumble_mtu'], p['delay'], repr(p['refusals']), p['ack'], p['idle_round'])
     r.sched.add(rg.schedule_signature)
     r.evals()
     r.sample = {'kind': 'rawcfg', 'params': {k: v for k, v in p.items()}, 'trace': ep.trace[:24]}
+
+# -----------------------------------------------------------------------------
+# ERTM channels over TIME: bursts, idle periods around / beyond the retransmission and monitor
+# time-outs, then more traffic; several cycles; both directions
+# -----------------------------------------------------------------------------
+def idle_class(idle, rto, mto):
+    if idle == 0:
+        return 'no-idle'
+    if idle < rto:
+        return 'idle-below-retransmission-timeout'
+    if idle < rto + mto:
+        return 'idle-beyond-retransmission-timeout'
+    return 'idle-beyond-monitor-timeout'
+
+
+async def ertmtime(case, r: R):
+    """Two bumble ends in ERTM. Cycles of (burst of SDUs written back to back by one or both ends - single
+    frames, segmented SDUs, more frames than the window - every SDU at the other sink; then NOTHING for a seeded
+    stretch of virtual time: none, below / just past the retransmission time-out, past retransmission + monitor
+    time-out, several of them). Every SDU of every later cycle must still arrive, exactly once and in order: a
+    channel that is fully acknowledged has no timer that may change its state."""
+    from bumble import l2cap
+    from vlib import rig as vrig
+    rng = random.Random(case['seed'])
+    vrig.seed_entropy(case['seed'])
+    specs = []
+    for _ in range(2):
+        d = gen_spec(rng)
+        d['mode'] = 'ertm'
+        d['fcs_enabled'] = rng.random() < 0.25
+        d['rto'] = rng.choice([2.0, 2.0, 2.0, 0.5, 1.0])      # 2 s is the default
+        d['mto'] = rng.choice([12.0, 12.0, 3.0, 1.0])         # 12 s is the default
+        specs.append(d)
+    cs, ss = specs
+
+    def mk(d):
+        sp = mkspec(d, PSM)
+        sp.retransmission_timeout = d['rto']
+        sp.monitor_timeout = d['mto']
+        return sp
+    rg = vrig.Rig(2, seed=case['seed'], max_delay=rng.choice([0, 0, 1, 3]), classic=True,
+                  acl_len=[rng.choice([64, 339, 1021]) for _ in range(2)], acl_num=[rng.choice([1, 2, 8]) for _ in range(2)])
+    for d in rg.devices:
+        d.l2cap_channel_manager.extended_features.update({
+            l2cap.L2CAP_Information_Request.ExtendedFeatures.ENHANCED_RETRANSMISSION_MODE,
+            l2cap.L2CAP_Information_Request.ExtendedFeatures.FCS_OPTION})
+    await rg.power_on()
+    ca, cb = await rg.connect_classic(0, 1)
+    accepted = []
+    rg.devices[1].create_l2cap_server(spec=mk(ss), handler=accepted.append)
+    await rg.quiesce()
+    try:
+        ch = await vloop.vwait(ca.create_l2cap_channel(spec=mk(cs)))
+    except vloop.Hang:
+        r.bad('setup/hang/ertm-to-ertm', f'create_l2cap_channel pending at T_v; client={cs} server={ss}')
+        return
+    except Exception as e:
+        r.bad('setup/refused-compatible/ertm-to-ertm', f'{type(e).__name__}: {e}; client={cs} server={ss}')
+        return
+    await rg.quiesce()
+    sv = accepted[0]
+    ends = [ch, sv]
+    got = [[], []]          # got[i]: SDUs at the sink of end i
+    sent = [[], []]         # sent[i]: SDUs written by end i
+    ch.sink = got[0].append
+    sv.sink = got[1].append
+    mtu = min(cs['mtu'], ss['mtu'], 3000)
+    if ch.fcs_enabled:
+        mtu = min(mtu, 65529)
+    # the time-outs that govern end i as a SENDER are those of its own spec
+    hist = []
+    prev_idle = 'no-idle'
+    longest = 'no-idle'
+    order = ['no-idle', 'idle-below-retransmission-timeout', 'idle-beyond-retransmission-timeout', 'idle-beyond-monitor-timeout']
+    n_cycles = rng.randint(3, 6)
+    for cyc in range(n_cycles):
+        dirs = rng.choice([[0], [1], [0, 1], [0, 1]])
+        burst = {}
+        for d in dirs:
+            peer = (ss, cs)[d]
+            pm = peer['mps']
+            kind = rng.choice(['single', 'pair', 'segmented', 'over-window', 'mixed'])
+            if kind == 'single':
+                sizes = [rng.randint(1, min(mtu, pm))]
+            elif kind == 'pair':
+                sizes = [rng.randint(1, min(mtu, pm)) for _ in range(rng.randint(2, 4))]
+            elif kind == 'segmented':
+                sizes = [min(mtu, pm * rng.randint(2, 6) + rng.randint(0, 3))]
+            elif kind == 'over-window':
+                sizes = [rng.randint(1, min(mtu, pm)) for _ in range(min(70, peer['tx_window_size'] + rng.randint(1, 5)))]
+            else:
+                sizes = [rng.choice([1, min(mtu, pm), min(mtu, pm + 1), min(mtu, 3 * pm + 2)]) for _ in range(rng.randint(2, 6))]
+            burst[d] = (kind, sizes)
+        for d in dirs:
+            for size in burst[d][1]:
+                n = len(sent[d])
+                sdu = bytes([(n * 29 + i * 5 + d + cyc) & 0xFF for i in range(size)])
+                try:
+                    ends[d].write(sdu)
+                except Exception as e:
+                    r.bad(f'sdu/write-raised/ertm/over-time/after-{prev_idle}', f'write of {size} bytes in cycle {cyc} raised '
+                                                                               f'{type(e).__name__}: {e}; client={cs} server={ss} history={hist}')
+                    return
+                sent[d].append(sdu)
+                if rng.random() < 0.2:
+                    await asyncio.sleep(0)
+
+        async def done():
+            while len(got[1]) < len(sent[0]) or len(got[0]) < len(sent[1]):
+                await asyncio.sleep(0.05)
+        stalled = False
+        try:
+            await vloop.vwait(done(), 120)
+        except vloop.Hang:
+            stalled = True
+        await rg.quiesce()
+        hist.append((cyc, {d: burst[d] for d in dirs}, 'then idle'))
+        for d in (0, 1):
+            r.ev('sdu_checks')
+            r.ev('time_sdu_checks')
+            r.ev('oracle_evals')
+            g = [bytes(x) for x in got[1 - d]]
+            if g != sent[d]:
+                who = ('client', 'server')[d]
+                what = 'stalled' if len(g) < len(sent[d]) and g == sent[d][:len(g)] else 'duplicated' if len(g) > len(sent[d]) else 'corrupt'
+                p_ = ends[d].processor
+                r.bad(f'sdu/{what}/ertm/over-time/after-{prev_idle}',
+                      f'cycle {cyc}: {len(g)}/{len(sent[d])} SDUs written by the {who} arrived (longest idle so far: {longest}); sender '
+                      f'has {len(getattr(p_, "_pending_pdus", []))} frames queued, {len(getattr(p_, "_tx_window", []))} unacknowledged, '
+                      f'monitor timer {"armed" if getattr(p_, "_monitor_handle", None) else "off"}; client={cs} server={ss} history={hist}')
+                stalled = True
+        if stalled:
+            break
+        if prev_idle != 'no-idle':
+            r.ev('time_cycles_after_idle')
+            r.ev(f'time_cycles_after_{prev_idle}')
+            if any(len(burst[d][1]) > 1 or burst[d][0] == 'segmented' for d in dirs):
+                r.ev('time_multi_frame_bursts_after_idle')
+        # ---- nothing happens for a while
+        d0 = dirs[0]
+        own = (cs, ss)[d0]
+        rto, mto = own['rto'], own['mto']
+        idle = rng.choice([0, 0.4 * rto, rto - 0.05, rto + 0.05, 1.5 * rto, rto + 0.5 * mto, rto + mto + 0.1,
+                           2.5 * (rto + mto), 5 * (rto + mto)])
+        if idle:
+            await asyncio.sleep(idle)
+            try:
+                await rg.quiesce()
+            except vloop.Hang:
+                r.bad('sdu/livelock/ertm/over-time', f'no quiescence after {idle} idle seconds; client={cs} server={ss}')
+                return
+        # class w.r.t. the SMALLER time-outs of the ends that have sent so far
+        senders = [x for x, s_ in zip((cs, ss), sent) if s_]
+        prev_idle = max((idle_class(idle, x['rto'], x['mto']) for x in senders), key=order.index)
+        longest = max(longest, prev_idle, key=order.index)
+        hist[-1] = (cyc, {d: burst[d] for d in dirs}, f'idle {idle:.2f}s')
+        r.ev('time_idle_periods')
+        # an idle channel that is fully acknowledged stays open at both ends
+        r.ev('oracle_evals')
+        if ch.state != l2cap.ClassicChannel.State.OPEN or sv.state != l2cap.ClassicChannel.State.OPEN:
+            r.bad(f'setup/closed-while-idle/ertm/{prev_idle}', f'client {ch.state.name}, server {sv.state.name} after {idle}s idle')
+            return
+    fcs = ch.fcs_enabled
+    s0 = wire_check(rg.boundary_log, 0, r, 'ertm', fcs, '/ertm')
+    s1 = wire_check(rg.boundary_log, 1, r, 'ertm', fcs, '/ertm')
+    for where, e in rg.exceptions:
+        r.bad('sdu/exception-in-stack/ertm', f'{where}: {e}; over-time client={cs} server={ss}')
+    r.ev('time_cases')
+    r.sig('ertmtime', tuple(sorted(cs.items())), tuple(sorted(ss.items())), repr(hist))
+    r.sched.add(rg.schedule_signature)
+    r.evals()
+    r.sample = {'kind': 'ertmtime', 'client': cs, 'server': ss, 'history': [[h[0], {k: [v[0], v[1][:6]] for k, v in h[1].items()}, h[2]] for h in hist],
+                'iframes': s0['iframes'] + s1['iframes'], 'virtual_seconds': round(asyncio.get_running_loop().time(), 2)}
+
+
+# -----------------------------------------------------------------------------
+# set-ups issued back to back: refused / abandoned set-up then an IMMEDIATE retry, close then an immediate open
+# -----------------------------------------------------------------------------
+async def retry(case, r: R):
+    """Two bumble ends, two servers on the acceptor: PSM_A whose spec does NOT go with the client's (other mode,
+    or an FCS the client cannot do) and PSM_B whose spec does. A seeded chain of set-ups is issued WITHOUT waiting
+    for quiescence in between (no pause at all / a few loop turns / full quiescence), so that the tail of one
+    attempt (Disconnection Request/Response of the abandoned channel, whose CID is free again) is still in flight
+    when the next begins: every attempt towards B ends open/open in one mode and carries an SDU each way, every
+    attempt towards A ends closed/closed, none stays pending; in between a channel is closed by one end or by both
+    at once and the next set-up follows immediately."""
+    from bumble import l2cap
+    from vlib import rig as vrig
+    rng = random.Random(case['seed'])
+    vrig.seed_entropy(case['seed'])
+    cs = gen_spec(rng)
+    good = gen_spec(rng)
+    good['mode'] = cs['mode']
+    bad = gen_spec(rng)
+    bad['mode'] = 'basic' if cs['mode'] == 'ertm' else 'ertm'
+    for d in (cs, good, bad):
+        d['fcs_enabled'] = False
+        d['mtu'] = rng.choice([48, 256, 1024])
+    rg = vrig.Rig(2, seed=case['seed'], max_delay=rng.choice([0, 1, 1, 3, 5]), classic=True,
+                  acl_len=[rng.choice([27, 64, 339, 1021]) for _ in range(2)], acl_num=[rng.choice([1, 2, 8]) for _ in range(2)])
+    for d in rg.devices:
+        d.l2cap_channel_manager.extended_features.update({
+            l2cap.L2CAP_Information_Request.ExtendedFeatures.ENHANCED_RETRANSMISSION_MODE})
+    await rg.power_on()
+    ca, cb = await rg.connect_classic(0, 1)
+    acc = {'A': [], 'B': []}
+    PSM_A, PSM_B = PSM + 6, PSM + 8
+    rg.devices[1].create_l2cap_server(spec=mkspec(bad, PSM_A), handler=acc['A'].append)
+    rg.devices[1].create_l2cap_server(spec=mkspec(good, PSM_B), handler=acc['B'].append)
+    await rg.quiesce()
+    OPEN = l2cap.ClassicChannel.State.OPEN
+    CLOSED = l2cap.ClassicChannel.State.CLOSED
+    mgr0, mgr1 = (d.l2cap_channel_manager for d in rg.devices)
+    tagm = f'/{cs["mode"]}-to-{bad["mode"]}'
+    hist = []
+    live = []            # (client end, acceptor end)
+    prev = 'start'       # what the previous step was: discriminates the mechanism key
+    counter = [0]
+
+    async def gap():
+        g = rng.choice(['none', 'none', 'none', 'turns', 'quiesce'])
+        if g == 'turns':
+            for _ in range(rng.randint(1, 8)):
+                await asyncio.sleep(0)
+        elif g == 'quiesce':
+            await rg.quiesce()
+        return g
+
+    async def settle_and_check(after):
+        await rg.quiesce()
+        await asyncio.sleep(0.5)
+        await rg.quiesce()
+        r.ev('oracle_evals')
+        t0 = sorted(mgr0.channels.get(ca.handle, {}))
+        t1 = sorted(mgr1.channels.get(cb.handle, {}))
+        w0 = sorted(c.source_cid for c, _ in live)
+        w1 = sorted(s.source_cid for _, s in live)
+        ok = True
+        if t0 != w0 or t1 != w1:
+            r.bad(f'setup/tables-after-back-to-back/{after}{tagm}', f'client table {t0} (open {w0}), acceptor table {t1} (open {w1}); history={hist}')
+            ok = False
+        for s in acc['A'] + acc['B']:
+            if s.state not in (OPEN, CLOSED) or (s.state == OPEN and not any(s is x for _, x in live)):
+                r.bad(f'setup/disagree/acceptor-end-left-{s.state.name}/{after}{tagm}',
+                      f'an acceptor end is {s.state.name} at quiescence, the client holds {len(live)} channels; history={hist}')
+                ok = False
+        return ok
+
+    async def sdus(pair, after):
+        c, s = pair
+        gc, gs = [], []
+        c.sink, s.sink = gc.append, gs.append
+        counter[0] += 1
+        a = bytes([(counter[0] + 3 * i) & 0xFF for i in range(rng.choice([1, 30, min(cs['mtu'], good['mtu'])]))])
+        b = bytes([(counter[0] + 7 * i) & 0xFF for i in range(rng.choice([1, 30, min(cs['mtu'], good['mtu'])]))])
+        c.write(a)
+        s.write(b)
+
+        async def done():
+            while not gc or not gs:
+                await asyncio.sleep(0.05)
+        try:
+            await vloop.vwait(done(), 60)
+        except vloop.Hang:
+            pass
+        r.ev('sdu_checks', 2)
+        r.ev('retry_sdu_checks', 2)
+        r.ev('oracle_evals', 2)
+        if [bytes(x) for x in gs] != [a] or [bytes(x) for x in gc] != [b]:
+            r.bad(f'sdu/lost-or-corrupt/{cs["mode"]}/after-back-to-back/{after}',
+                  f'acceptor got {[len(x) for x in gs]} (sent {len(a)}), client got {[len(x) for x in gc]} (sent {len(b)}); history={hist}')
+            return False
+        return True
+
+    steps = rng.randint(3, 7)
+    for step in range(steps):
+        target = rng.choice(['A', 'A', 'B', 'B', 'B'])
+        if step == 0 and rng.random() < 0.6:
+            target = 'A'
+        g = await gap() if step else 'start'
+        hist.append((prev, g, 'open-' + target))
+        after = f'{prev}-then-open'
+        n_before = len(acc[target])
+        r.ev('retry_setups')
+        r.ev('setup_checks')
+        if g in ('none', 'turns') and prev != 'start':
+            r.ev('retry_setups_without_quiescence')
+            r.ev(f'retry_{prev}_then_open_without_quiescence')
+        ch = None
+        outcome = 'open'
+        try:
+            ch = await vloop.vwait(ca.create_l2cap_channel(spec=mkspec(cs, PSM_A if target == 'A' else PSM_B)))
+        except vloop.Hang:
+            r.bad(f'setup/hang/back-to-back/{after}{tagm}', f'create_l2cap_channel towards the {"mismatching" if target == "A" else "matching"} '
+                                                             f'server pending at T_v; history={hist} client={cs}')
+            return
+        except Exception as e:
+            outcome = f'{type(e).__name__}: {e}'
+        r.ev('oracle_evals')
+        if target == 'A':
+            if ch is not None:
+                r.bad(f'setup/mode-disagree/back-to-back{tagm}', f'set-up towards a {bad["mode"]} server returned an open channel; history={hist}')
+                return
+            prev = 'refused-setup'
+            if rng.random() < 0.3:
+                if not await settle_and_check(after):
+                    return
+            continue
+        if ch is None:
+            r.bad(f'setup/refused-compatible/back-to-back/{after}{tagm}', f'compatible set-up failed: {outcome}; history={hist} client={cs} server={good}')
+            return
+        # the acceptor end appears once the signalling has gone through
+        try:
+            await rg.quiesce()
+        except vloop.Hang:
+            r.bad(f'setup/livelock/back-to-back{tagm}', f'no quiescence; history={hist}')
+            return
+        new = [x for x in acc['B'][n_before:] if x.source_cid == ch.destination_cid]
+        if ch.state != OPEN or len(new) != 1 or new[0].state != OPEN or type(new[0].processor) is not type(ch.processor):
+            r.bad(f'setup/disagree/client-open/back-to-back/{after}{tagm}',
+                  f'client {ch.state.name}, acceptor ends {[x.state.name for x in acc["B"][n_before:]]}; history={hist}')
+            return
+        pair = (ch, new[0])
+        live.append(pair)
+        r.ev('retry_opens')
+        if not await sdus(pair, after):
+            return
+        prev = 'open'
+        x = rng.random()
+        if x < 0.75:
+            how = rng.choice(['client', 'acceptor', 'both', 'both'])
+            live.remove(pair)
+            try:
+                if how == 'both':
+                    # the client's next step follows as soon as ITS disconnect() has returned
+                    t2 = asyncio.ensure_future(pair[1].disconnect())
+                    await vloop.vwait(pair[0].disconnect())
+                    pend = t2
+                elif how == 'client':
+                    await vloop.vwait(pair[0].disconnect())
+                    pend = None
+                else:
+                    pend = asyncio.ensure_future(pair[1].disconnect())
+                    await asyncio.sleep(0)
+            except vloop.Hang:
+                r.bad(f'setup/close-hang/back-to-back{tagm}', f'disconnect() by {how} pending at T_v; history={hist}')
+                return
+            except Exception:
+                pend = None
+            if pend is not None:
+                pend.add_done_callback(lambda f: f.cancelled() or f.exception())
+            prev = {'both': 'crossing-closes', 'client': 'close', 'acceptor': 'close-by-peer'}[how]
+            r.ev('retry_closes')
+    await settle_and_check('end')
+    for where, e in rg.exceptions:
+        r.bad(f'sdu/exception-in-stack/{cs["mode"]}', f'{where}: {e}; back-to-back history={hist}')
+    r.ev('retry_cases')
+    r.sig('retry', tuple(sorted(cs.items())), bad['mode'], tuple(hist))
+    r.sched.add(rg.schedule_signature)
+    r.evals()
+    r.sample = {'kind': 'retry', 'client': cs, 'mismatching_server': bad, 'matching_server': good, 'history': hist}
 
 
 async def run_case(case, r: R):
@@ -960,6 +1524,10 @@ async def run_case(case, r: R):
         await multi(case, r)
     elif case['kind'] == 'rawcfg':
         await rawcfg(case, r)
+    elif case['kind'] == 'ertmtime':
+        await ertmtime(case, r)
+    elif case['kind'] == 'retry':
+        await retry(case, r)
     else:
         await xfer(case, r)
 
@@ -968,7 +1536,11 @@ LEVEL_TEXT = ('SDU-sequence equality plus an independent ERTM wire parser (TxSeq
               "peer's Configuration Request, MPS, FCS by own CRC-16, SAR legality) and an open/open-or-closed/closed "
               'set-up oracle over ~200 (quick) / ~4000 (thorough) generated spec pairs and SDU sequences on real '
               'BR/EDR rigs, plus ~480 (quick) / ~4000 (thorough) set-ups against a hand-driven peer that orders the '
-              'configuration exchange in every legal way with bumble in either role. Sampling of specs and sequences; '
+              'configuration exchange in every legal way with bumble in either role (refused requests advertising other '
+              'values before the accepted one, late acknowledgements, idle stretches), ~160 / ~1600 ERTM channels over virtual '
+              'time (bursts and idle stretches around the retransmission / monitor time-outs) and ~160 / ~1600 chains of '
+              'set-ups issued back to back without quiescence (refused set-up, close, crossing closes, then at once the next). '
+              'Sampling of specs and sequences; '
               'no loss, so retransmission is not exercised.')
 LEVEL_NOTE = ('Trusted: the wire parser and CRC in checks/c08.py, vlib/ref_l2cap.py signalling parser, rig taps, '
               'independent ACL reassembler, virtual-time loop.')
